@@ -226,6 +226,7 @@ def _real_worker(case):
         return out
     finally:
         pool.cleanup()
+        cg.cleanup_helpers()
 
 
 _pool = None
@@ -273,6 +274,13 @@ def exhaustive_cases(thorough: bool):
         out.append({"content": content, "bad": [], "decl_seed": len(out), "stratum": "exhaustive",
                     "queries": [["init"], ["pvals"], ["args", None, "0"], ["rhs", [["x", "3"]], "1"], ["call", "1", ["3"]],
                                 ["stoich", [["x", "3"]], "1"]]})
+    # control-flow bodies on a grid of states (oracle only)
+    for content in cg.cond_grid_contents():
+        qs = [["init"], ["args", None, "0"]]
+        for x in (-2, -1, 0, 1, 2):
+            qs += [["args", [["x", str(x)]], "0"], ["call", "0", [str(x)]]]
+        out.append({"content": content, "bad": [], "decl_seed": len(out), "stratum": "exhaustive-conditionals",
+                    "oracle_only": True, "queries": qs})
     return out
 
 
@@ -310,10 +318,10 @@ def evaluate(cases, use_driver=True):
 Namer = cg.Namer
 
 
-def rich_queries(rng, content):
+def rich_queries(rng, content, vals=(1, 2, 4, 8), n=2):
     qs = [["init"], ["pvals"], ["args", None, "0"], ["rhs", None, "0"], ["fluxes", None, "0"]]
-    for _ in range(2):
-        st = [[k, str(rng.choice([1, 2, 4, 8]))] for k, _ in content["vars"]]
+    for _ in range(n):
+        st = [[k, str(rng.choice(vals))] for k, _ in content["vars"]]
         t = str(rng.choice([1, 2]))
         qs += [["args", st, t], ["fluxes", st, t], ["rhs", st, t], ["call", t, [v for _, v in st]], ["stoich", st, t]]
     return qs
@@ -333,18 +341,22 @@ def gen_case(ctx, i):
         stratum, namer, dup = "cross-key", Namer(rng, 0.2, 0.0, 0.4), 0.0
     elif r < 0.73:
         stratum, namer, dup = "untranslatable", Namer(rng, 0.0, 0.0, 0.0), 0.0
-    elif r < 0.88:   # functions in modules with module-level float constants (read / merely named like a parameter);
+    elif r < 0.86:   # functions in modules with module-level float constants (read / merely named like a parameter);
         #              session: the constants change, a model is built from the same functions and generated again
         stratum, namer, dup = "module-constants", Namer(rng, 0.3, 0.0, 0.0), 0.0
         kw = {"p_modconst": 0.6}
-    else:            # wider expression fragment (/ % ** unary minus, nested): oracle only, R vs S to 1e-9
+    elif r < 0.94:   # wider expression fragment (/ % ** unary minus, nested): oracle only, R vs S to 1e-9
         stratum, namer, dup = "wider-expressions", Namer(rng, 0.3, 0.0, 0.0), 0.0
         kw = {"rich": True, "small": (1, 2, 4), "p_time": 0.0, "n_pars": (1, 3)}
+        extra["oracle_only"] = True
+    else:            # control flow in the functions, states / parameters negative, zero, on the thresholds, positive
+        stratum, namer, dup = "conditionals", Namer(rng, 0.3, 0.0, 0.0), 0.0
+        kw = {"rich": "cond", "small": cg.COND_VALUES, "p_time": 0.0, "n_pars": (1, 3), "n_comps": (1, 5)}
         extra["oracle_only"] = True
     if kw.get("rich"):
         content = cg.gen_content(rng, all_vars_have_eq=rng.random() < 0.6, p_ia_par=0.1, p_ia_var=0.2, p_dyn_coef=0.35,
                                  name_fn=namer, **kw)
-        qs = rich_queries(rng, content)
+        qs = rich_queries(rng, content, cg.COND_VALUES, 3) if kw["rich"] == "cond" else rich_queries(rng, content)
     else:
         content = cg.gen_content(rng, all_vars_have_eq=rng.random() < 0.6, p_ia_par=0.12, p_ia_var=0.25, p_dyn_coef=0.35,
                                  name_fn=namer, p_dup_arg=dup, **kw)
@@ -405,11 +417,11 @@ def judge_oracle_only(ctx, case, R):
         ctx.hist["skipped_model_raises"] = ctx.hist.get("skipped_model_raises", 0) + 1
         return
     if "gen" in R:
-        ctx.judge(dict(base, queries=[]), R["gen"], {"ok": "source emitted"}, None, what="generation raised (wider expression fragment)")
+        ctx.judge(dict(base, queries=[]), R["gen"], {"ok": "source emitted"}, None, what="generation raised (oracle-only stratum)")
         return
     if classify(case["content"]) is None:
         ctx.judge(dict(base, queries=[]), R["R_struct"], R["S_struct"], None,
-                  what="component names / kinds / arguments / plain values (wider expression fragment)")
+                  what="component names / kinds / arguments / plain values (oracle-only stratum)")
     else:
         return      # name collisions / repeated arguments are the subject of the exact strata
     for i, q in enumerate(case["queries"]):
@@ -419,7 +431,7 @@ def judge_oracle_only(ctx, case, R):
             continue
         if cg.close(Rq, S):
             Rq = S
-        ctx.judge(dict(base, queries=[q]), Rq, S, None, finding=fid, what=f"round trip, query {q[0]} (wider expression fragment)")
+        ctx.judge(dict(base, queries=[q]), Rq, S, None, finding=fid, what=f"round trip, query {q[0]} (oracle-only stratum)")
 
 
 def judge_phase(ctx, case, R, M, tag=""):
